@@ -521,6 +521,38 @@ func insertConfigEntryWithTxn(tx WriteTxn, idx uint64, conf structs.ConfigEntry)
 			if err := upsertKindServiceName(tx, idx, structs.ServiceKindDestination, sn); err != nil {
 				return fmt.Errorf("failed to persist service name: %v", err)
 			}
+		} else {
+			// The entry is written without a Destination. If the stored entry has one, the name
+			// stops being a destination: undo what the write of the Destination recorded, exactly
+			// as deleteConfigEntryTxn does, or the (destination, name) row of kind-service-names
+			// and the gateway mappings of the destination outlive it (and a snapshot restore,
+			// which rebuilds them from the entries, gives a different store).
+			existing, err := tx.First(tableConfigEntries, indexID, newConfigEntryQuery(conf))
+			if err != nil {
+				return fmt.Errorf("failed config entry lookup: %s", err)
+			}
+			if old, ok := existing.(*structs.ServiceConfigEntry); ok && old.Destination != nil {
+				sn := structs.NewServiceName(conf.GetName(), conf.GetEnterpriseMeta())
+				gsKind, err := GatewayServiceKind(tx, sn.Name, &sn.EnterpriseMeta)
+				if err != nil {
+					return fmt.Errorf("failed to get gateway service kind for service %s: %v", sn.Name, err)
+				}
+				if gsKind == structs.GatewayServiceKindDestination {
+					gsKind = structs.GatewayServiceKindUnknown
+				}
+				if err := checkGatewayWildcardsAndUpdate(tx, idx, &sn, nil, gsKind); err != nil {
+					return fmt.Errorf("failed updating gateway mapping: %s", err)
+				}
+				if err := cleanupGatewayWildcards(tx, idx, sn, true); err != nil {
+					return fmt.Errorf("failed to cleanup gateway mapping: \"%s\"; err: %v", sn, err)
+				}
+				if err := checkGatewayAndUpdate(tx, idx, &sn, gsKind); err != nil {
+					return fmt.Errorf("failed updating gateway mapping: %s", err)
+				}
+				if err := cleanupKindServiceName(tx, idx, sn, structs.ServiceKindDestination); err != nil {
+					return fmt.Errorf("failed to cleanup service name: \"%s\"; err: %v", sn, err)
+				}
+			}
 		}
 	case structs.SamenessGroup:
 		err := checkSamenessGroup(tx, conf)
